@@ -364,6 +364,36 @@ theorem C15_randIntn_dispatch (n : Int) (c : Bool) (s : Stream) :
 equally likely outcomes of ideal `RandIntn(i+1)` calls — and `reservoir k js` is the content of
 `ps[0..k)` (as positions of the original list) after crypto.Sample's loop made those draws. -/
 
+/-- crypto.Sample is Algorithm R: whatever the stream, a successful `Sample(k, n, pick)` with
+    `pick = (ps[dst] = ps[src])` applied to the list `[0, n)` leaves in `ps[0..k')`,
+    `k' = min k n`, the reservoir of one of the draw vectors of `allDraws` (the `j`s are the
+    values RandIntn returned). -/
+theorem C15_sample_is_reservoir (k n : Nat) (c : Bool) (s : Stream) (k' : Nat)
+    (picks : List (Nat × Nat)) (rest : Stream)
+    (h : sample (k : Int) (n : Int) c s = .ok (k', picks, rest)) :
+    k' = min k n ∧ ∃ js ∈ allDraws k' (n - k'),
+      (applyPicks (List.range n) picks).take k' = reservoir k' js := by
+  unfold sample at h
+  have h1 : ¬ ((k : Int) < 0) := by omega
+  have h2 : ¬ ((n : Int) < 0) := by omega
+  simp only [h1, h2, ↓reduceIte, Int.toNat_natCast] at h
+  split at h
+  · rename_i pk s' hloop
+    simp only [Res.ok.injEq, Prod.mk.injEq] at h
+    obtain ⟨hk, hp, _⟩ := h
+    have hk' : k' = min k n := by rw [← hk]; split <;> omega
+    refine ⟨hk', ?_⟩
+    rw [hk] at hloop
+    unfold sampleLoop at hloop
+    obtain ⟨js, hjl, hjb, heq⟩ := sampleLoop_reservoir randIntn randIntn_lt n k' c (n - k') k' s
+      (List.range n) pk s' hloop (Nat.le_refl _) (by omega) (by simp) rfl
+    refine ⟨js, mem_allDraws k' (n - k') js hjl hjb, ?_⟩
+    rw [← hp, applyPicks_append, hk, applyPicks_id, heq, take_range]
+    have : min k' n = k' := by omega
+    rw [this]; rfl
+  · simp at h
+  · simp at h
+
 /-- there are `(k+1)(k+2)…(k+m)` draw vectors -/
 theorem C15_allDraws_length (k m : Nat) :
     (allDraws k (m + 1)).length = (allDraws k m).length * (k + m + 1) := by
